@@ -199,12 +199,13 @@ def andThen (r : Ctx × Res α) (k : Ctx → α → Ctx × Res β) : Ctx × Res 
 
 One iteration either has nothing to report, or calls `context.handle_error(e)` and — when that does
 not raise — carries on with the next item (`report`), or calls `handle_error(e)` and then raises anyway
-(`abort`, the missing-prefix branch of `_parse_tuple_args`). -/
+(`abort`). -/
 
 inductive Step (α : Type) where
   | keep (a : α)
   | report (e : Err) (a : α)
-  | abort (e : Err) (x : Exc)
+  | abort (e : Err) (x : Exc)     -- no loop of the current tree ends this way any more (it was the missing-prefix
+                                  -- branch of `_parse_tuple_args` before fix 40b0acf); the loop lemmas cover it
 
 def runLoop (step : α → ι → Step α) : Ctx → List ι → α → Ctx × Res α
   | c, [], a => (c, .ok a)
@@ -258,8 +259,9 @@ def seqStep (rec : P) (T : Ty) (m : Mode) (o : Opts) (acc : List Val) (it : Val 
 def tupleStep (rec : P) (m : Mode) (o : Opts) (xs : List Val) (acc : List Val) (it : Ty × Nat) : Step (List Val) :=
   match xs[it.2]? with
   | none =>
-    -- :1902-1907 AbsenceError is handled, then `value[i]` raises IndexError in the try *and* in its handler (:1914)
-    .abort { kind := .absence, item := some (toString it.2) } (.raw { kind := .other })
+    -- rule.py:1935-1942 at /repo 7b3aeda (since C04's fix 40b0acf): AbsenceError is handled and the loop goes on
+    -- with the next prefix (before the fix `value[i]` then died with IndexError)
+    .report { kind := .absence, item := some (toString it.2) } acc
   | some x =>
     match verdict rec it.1 m o x with
     | some r => .keep (acc ++ [r])
@@ -586,6 +588,10 @@ def fieldFirst (rec : P) (decl : List FieldDecl) (excluded : List String) (c : C
 /-- `parse_data` (base.py:353-388; max_params/min_params not in the fragment) -/
 def parseData (rec : P) (decl : List FieldDecl) (excluded : List String) (c : Ctx) (data : Data) : Ctx × Res Data :=
   if c.o.dfs then dataFirst rec decl excluded c data else fieldFirst rec decl excluded c data
+
+/-- a type called on a value with a fresh context of the given options (`type_transform(value, T, options=…)`) -/
+def runType (W : World) (fuel : Nat) (T : Ty) (m : Mode) (o : Opts) (v : Val) : Res Val :=
+  (parse W fuel T (clean0 m o) v).2
 
 /-- `BaseParser.__call__` (base.py:342-350): a fresh context, `parse_data`, `context.raise_error()` -/
 def run (W : World) (fuel : Nat) (decl : List FieldDecl) (m : Mode) (o : Opts) (data : Data) : Res Data :=
